@@ -3,6 +3,9 @@ import TabulaModel.Model.Filters
 import TabulaModel.Model.StreamDict
 import TabulaModel.Model.FilterSpec
 import TabulaModel.Model.StreamConform
+import TabulaModel.Model.StreamConformLax
+import TabulaModel.Model.StreamLit
+import TabulaModel.Model.StreamHeap
 /-!
 Line protocol of C05 (bytes are lower-case hex, `-` = empty; replies `ok <hex>` or `err`):
 
@@ -43,9 +46,29 @@ Dictionary-level ops (`Model/StreamDict.lean`):
 * `c05.writes <stages> <table> <y> <m1> … <x>` — `chainWritesL`: are the intermediates of an encoded
   pipeline (outermost encoding first, original last) conforming encodings of one another
   (`true` / `false`); `table` as for `c05.chain`
+* `c05.writeslax <stages> <table> <y> <m1> … <x>` — `chainWritesLaxL`: the same with the lenient ASCII85
+  writing (`!!!!!` allowed for an all-zero group, `Model/StreamConformLax.lean`)
 * `c05.sess <calls> <table> <dict1> <data1> <dict2> <data2> …` — `runSession`: `calls` is a
   comma-separated list of stream indices (a history of `Decode()` calls); the reply joins the
   results with `|`
+
+Loop-level and buffer-level models (`Model/FiltersLit.lean`, `Model/PredictFlat.lean`,
+`Model/StreamLit.lean`; proved equal to the models above in `Props/C05Lit.lean`):
+
+* `c05.lit.hex <data>`, `c05.lit.a85 <data>` — `hexDecodeLit`, `a85DecodeLit` (the Go loops with indices
+  and machine arithmetic)
+* `c05.flat <P> <data>`             — `flatePostFlat (some P)` (the predictors on flat buffers)
+* `c05.lit.sd <dict> <data> <table>` — `streamDecodeDLit` (`Decode()` over the loop-level functions)
+
+Histories with shared buffers (`Model/StreamHeap.lean`):
+
+* `c05.heap <ops> <table> <dict1> <data1> …` — `traceHeap` / `runHeap`: `ops` is a comma-separated list of
+  `d<i>` (`Decode()` on stream i), `D<i>` (`Decoded()`), `w<r>:<k>:<v>` (the caller writes byte v at
+  position k of the r-th result). The reply joins, with `|`, one entry per operation — `ok <hex>`, `err`,
+  `w` — then `#`, the streams' Data at the end (comma-separated hex), `#`, and the results as they read at
+  the end (hex or `!` for a failed call). Whether a result IS the stream's Data is not part of the
+  reply (the property does not say; the harness only counts how often the implementation agrees with
+  `passThrough`), and the generated histories write only through results of streams with a decoding filter
 
 `dict` is an object in the wire form `obj` = `N` (Go nil) | `z` (Null) | `T` | `F` | `i<int>` | `r<m>/<e>` (the
 Real m/2^e) | `s<hex>` (String) | `n<hex>` (Name) | `o` (stream / indirect reference) |
@@ -272,8 +295,61 @@ def parseStage (s : String) : Option WStage :=
 def parseStages (s : String) : Option (List WStage) :=
   if s == "_" then some [] else (s.splitOn ",").mapM parseStage
 
+def parseHOp (s : String) : Option HOp :=
+  if s.startsWith "d" then (s.drop 1).toString.toNat?.map .decode
+  else if s.startsWith "D" then (s.drop 1).toString.toNat?.map .decoded
+  else if s.startsWith "w" then
+    match (s.drop 1).toString.splitOn ":" with
+    | [r, k, v] => do
+      let r ← r.toNat?; let k ← k.toNat?; let v ← v.toNat?
+      pure (.write r k v)
+    | _ => none
+  else none
+
+/-- one entry of the trace of `c05.heap` -/
+def heapEntry (op : HOp) (r : Option (Str × Bool)) : String :=
+  match op with
+  | .write _ _ _ => "w"
+  | _ =>
+    match r with
+    | none => "err"
+    | some (b, _) => "ok " ++ hexS b
+
+def heapReply (ext : Ext) (st : Store) (ops : List HOp) : String :=
+  let h0 := Heap.init st
+  let tr := traceHeap ext h0 ops
+  let h := runHeap ext h0 ops
+  let entries := (ops.zip tr).map fun (op, r) => heapEntry op r
+  let streams := h.streams.map fun s => hexS s.data
+  let results := h.results.map fun r =>
+    match r with
+    | none => "!"
+    | some ref => match h.deref ref with
+      | some b => hexS b
+      | none => "?"
+  "|".intercalate entries ++ "#" ++ ",".intercalate streams ++ "#" ++ ",".intercalate results
+
 def handle (op : String) (args : List String) : String :=
   match op, args with
+  | "c05.lit.hex", [d] => match unhexS d with
+    | some d => reply (hexDecodeLit d) | none => "bad-op"
+  | "c05.lit.a85", [d] => match unhexS d with
+    | some d => reply (a85DecodeLit d) | none => "bad-op"
+  | "c05.flat", [p, d] => match parseParams p, unhexS d with
+    | some p, some d => reply (flatePostFlat (some p) d) | _, _ => "bad-op"
+  | "c05.lit.sd", [d, x, t] =>
+    match parseDict d, unhexS x, parseTable t with
+    | some d, some x, some t =>
+      reply (streamDecodeDLit { inflate := lookupTable t, ccitt := fun _ _ => none } d x)
+    | _, _, _ => "bad-op"
+  | "c05.heap", ops :: t :: streams =>
+    match (ops.splitOn ",").mapM parseHOp, parseTable t, parseStreams streams with
+    | some ops, some t, some st => heapReply { inflate := lookupTable t, ccitt := fun _ _ => none } st ops
+    | _, _, _ => "bad-op"
+  | "c05.writeslax", st :: t :: ms =>
+    match parseStages st, parseTable t, ms.mapM unhexS with
+    | some st, some t, some ms => toString (chainWritesLaxL (lookupTable t) st ms)
+    | _, _, _ => "bad-op"
   | "c05.writes", st :: t :: ms =>
     match parseStages st, parseTable t, ms.mapM unhexS with
     | some st, some t, some ms => toString (chainWritesL (lookupTable t) st ms)
